@@ -2,7 +2,7 @@
 
 from __future__ import annotations
 
-from ..execmodel import ExecHooks, FullHooks, make_session
+from ..execmodel import ExecHooks, FullHooks, R, make_session
 from ..interp import explore
 from ..values import Const, Obj, Str, Sym, tagof
 from .c03 import rule_handle
@@ -39,10 +39,10 @@ def rule_shared_handle(ctx):
     for p, (duck, conn) in zip(explore(prog, lambda: ExecHooks(None), run, max_paths=16), sessions):
         n += 1
         c2 = p.value
-        ok = (p.outcome == "return" and isinstance(c2, Obj) and c2.attrs.get("_duck_conn") is duck and c2.attrs.get("_conn") is conn)
+        ok = (p.outcome == "return" and isinstance(c2, Obj) and c2.attrs.get(R().duck) is duck and c2.attrs.get(R().conn) is conn)
         ctx.ob("C13.b", "conn.cursor(): the new fake cursor holds the connection's own engine handle", ok, "fakesnow/conn.py")
         if not ok:
-            got = c2.attrs.get("_duck_conn") if isinstance(c2, Obj) else c2
+            got = c2.attrs.get(R().duck) if isinstance(c2, Obj) else c2
             ctx.violation("C13.b", "conn", "FakeSnowflakeConnection.cursor", "cursor() handle", "fakesnow/conn.py",
                           f"conn.cursor() gives the fake cursor `{tagof(got)}` instead of the connection's engine handle: statements of one "
                           f"session would run on different engine connections (COMMIT would not end the transaction BEGIN opened)")
